@@ -475,8 +475,8 @@ func runType(t T, out *workerOut, onlyVariant, onlyRoute string) {
 			out.Evals++
 			out.Events[name+":"+r.Status]++
 			out.Distinct = append(out.Distinct, p+" @ "+name)
-			if len(out.Samples) < 2 && r.Status == "converted" && depth(t) >= 2 && variant != "zero" {
-				out.Samples = append(out.Samples, fmt.Sprintf("%s variant %s over %s: converted", p, variant, route))
+			if len(out.Samples) < 1 && r.Status == "converted" && depth(t) >= 2 && (variant == "max" || variant == "odd") {
+				out.Samples = append(out.Samples, fmt.Sprintf("%s (Go %s) = %s over %s: converted", p, rtype(t), trunc(canonGo(build(t, variant, 0), 0).String(), 160), route))
 			}
 			if r.Status != "fail" {
 				continue
@@ -675,7 +675,7 @@ func plan(d *mon.Driver) []T {
 // driver
 
 func drive(d *mon.Driver, replay string) int {
-	d.Rule = "a case is a Go type (constructor term over bool, sized ints/uints, floats, string, byte, time.Time, interface{}, error, a declared non-empty interface, 34 declared named types incl. time.Duration/time.Month/fs.FileMode, under named/pointer/slice/array/map[string]T/struct/interface; all terms to depth 2, sampled at depth 3, plus structs with 2-4 members) with up to 9 values (zero, inner-zero, empty, typical, min, max, three odd: NaN/Inf/tiny/non-UTF-8/>MaxInt64/located times) sent over every route (global, field-read, field-write, param, param-any, param(api), return, return-any; script values from the Go value, from a natural script value, and with out-of-range ints). distinct_nontrivial = distinct (exact type-constructor path, route) pairs that were executed and gave a verdict (converted, rejected or failed); for failures the minimal path is in the signature"
+	d.Rule = "a case is a Go type (constructor term over bool, sized ints/uints, floats, string, byte, time.Time, interface{}, error, a declared non-empty interface, 34 declared named types incl. time.Duration/time.Month/fs.FileMode, under named/pointer/slice/array/map[string]T/struct/interface; all terms to depth 2, sampled at depth 3, plus structs with 2-4 members) with up to 9 values (zero, inner-zero, empty, typical, min, max, three odd: NaN/Inf/tiny/non-UTF-8/>MaxInt64/located times) sent over every route (global, field-read, field-write, member-read and member-write for structs with several members, param, param-any, param(api), return, return-any, plus a hand-written method-protocol group; script values from the Go value, from a natural script value, and with out-of-range ints). distinct_nontrivial = distinct (exact type-constructor path, route) pairs that were executed and gave a verdict (converted, rejected or failed); for failures the minimal path is in the signature"
 	d.Assume = []string{
 		"contents are compared after forgetting Go type names, integer widths, pointer-ness (a non-struct pointer is its pointee or nil) and nil-vs-empty for slices and maps; floats are compared by the bits of the float64 value (NaN, -0 included); times by instant, zone offset and location name",
 		"inside interface-typed positions the dynamic Go type cannot be preserved by any conversion (int8 comes back as int64); only the contents are compared there",
